@@ -347,6 +347,12 @@ func (fx *FuncCtx) mergeStates(states []*State) *State {
 func (fx *FuncCtx) merge2(a, b *State) *State {
 	n := &State{env: map[types.Object]Val{}}
 	n.pc = fx.name(sortBool, "pc", sOr(a.pc, b.pc))
+	if fx.pcParts == nil {
+		fx.pcParts = map[string][]string{}
+	}
+	if n.pc != a.pc && n.pc != b.pc {
+		fx.pcParts[n.pc] = []string{a.pc, b.pc}
+	}
 	// deterministic order
 	var objs []types.Object
 	for o := range a.env {
